@@ -4,6 +4,7 @@
 (*   {op:"validate", schema, env, opt, doc, ok}                       C01-C03 (random tier) *)
 (*   {op:"example",  schema, env, opt, bytes, value, parsed}          C15                    *)
 (*   {op:"regex_example", re, example}                                C18                    *)
+(*   {op:"lenunit", c, oks}                                           C02 (unit of lengths)  *)
 EXTENDS Integers, Sequences, TLC, Json, Sem
 CONSTANT TraceFile
 J == INSTANCE JsonText WITH MaxDepth <- 100000
@@ -29,6 +30,11 @@ Problem(e) ==
   CASE e.op = "validate" ->
          LET v == Verdict(e.env, e.schema, e.doc, e.opt) IN
          IF v = "unspec" \/ (e.ok <=> v = "accept") THEN "ok" ELSE "verdict:" \o v
+    [] e.op = "lenunit" ->              \* oks[k+1] : does {minLength: k, maxLength: k} accept the string c ?  exactly at its length, in ONE unit
+         LET U8(cp) == IF cp < 128 THEN 1 ELSE IF cp < 2048 THEN 2 ELSE IF cp < 65536 THEN 3 ELSE 4
+             SumTo[i \in 0..Len(e.c)] == IF i = 0 THEN 0 ELSE SumTo[i - 1] + U8(e.c[i])
+             units == {Len(e.c), SumTo[Len(e.c)]}
+         IN IF \E L \in units : \A k \in DOMAIN e.oks : e.oks[k] = (k - 1 = L) THEN "ok" ELSE "length-unit-inconsistent"
     [] e.op = "regex_example" -> IF Search(e.re, e.example) THEN "ok" ELSE "example-does-not-match"
     [] e.op = "example" ->
          IF J!RefVerdict(J!RefRun(J!RefInit, e.bytes, FALSE)) # "accept" THEN "malformed"
